@@ -266,7 +266,7 @@ where
 pub(crate) struct CacheProcessor<V, U, CB, S> {
     insert_buf_rx: Receiver<Item<V>>,
     stop_rx: Receiver<()>,
-    clear_rx: Receiver<()>,
+    clear_rx: Receiver<WaitGroup>,
     metrics: Arc<Metrics>,
     store: Arc<ShardedMap<V, U, S, S>>,
     policy: Arc<AsyncLFUPolicy<S>>,
@@ -383,7 +383,7 @@ pub struct AsyncCache<
 
     pub(crate) stop_tx: Sender<()>,
 
-    pub(crate) clear_tx: Sender<()>,
+    pub(crate) clear_tx: Sender<WaitGroup>,
 
     pub(crate) callback: Arc<CB>,
 
@@ -481,14 +481,13 @@ where
             return Ok(());
         }
 
-        // stop the process item thread.
-        self.clear_tx.send(()).await.map_err(|e| {
+        // The clear is applied by the processor task, between two buffered items, so that
+        // it cannot interleave with an item that is being applied.
+        let wg = WaitGroup::new();
+        self.clear_tx.send(wg.add(1)).await.map_err(|e| {
             CacheError::SendError(format!("fail to send clear signal to working thread {}", e))
         })?;
-
-        self.policy.clear();
-        self.store.clear();
-        self.metrics.clear();
+        wg.wait().await;
 
         Ok(())
     }
@@ -675,7 +674,7 @@ where
         policy: Arc<AsyncLFUPolicy<S>>,
         insert_buf_rx: Receiver<Item<V>>,
         stop_rx: Receiver<()>,
-        clear_rx: Receiver<()>,
+        clear_rx: Receiver<WaitGroup>,
         metrics: Arc<Metrics>,
         callback: Arc<CB>,
     ) -> Self {
@@ -714,9 +713,12 @@ where
                             tracing::error!("fail to handle cleanup event, error: {}", e);
                         }
                     },
-                    _ = self.clear_rx.recv().fuse() => {
-                        if let Err(e) = CacheCleaner::new(&mut self).clean().await {
+                    msg = self.clear_rx.recv().fuse() => {
+                        if let Err(e) = self.handle_clear_event().await {
                             tracing::error!("fail to handle clear event, error: {}", e);
+                        }
+                        if let Ok(wg) = msg {
+                            wg.done();
                         }
                     },
                     _ = self.stop_rx.recv().fuse() => {
@@ -729,10 +731,23 @@ where
     }
 
     #[inline]
+    pub(crate) async fn handle_clear_event(&mut self) -> Result<(), CacheError> {
+        let res = CacheCleaner::new(self).clean().await;
+        self.policy.clear();
+        self.store.clear();
+        self.metrics.clear();
+        res
+    }
+
+    #[inline]
     pub(crate) fn handle_close_event(&mut self) -> Result<(), CacheError> {
         self.insert_buf_rx.close();
         self.clear_rx.close();
         self.stop_rx.close();
+        // nobody may be left waiting for a clear that will not happen
+        while let Ok(wg) = self.clear_rx.try_recv() {
+            wg.done();
+        }
         Ok(())
     }
 
